@@ -1506,7 +1506,7 @@ def main(tier, seed, replay=None):
                 f.write('CONSTRAINT Depth%d\n' % depth)
         try:
             # one worker = deterministic counterexample; the searches that are expected to find nothing may use more
-            return tlc.run('MC_Lifecycle.tla', p, timeout=timeout, workers=nworkers)
+            return tlc.run('MC_Lifecycle.tla', p, timeout=timeout, workers=nworkers, heap='3g')
         except tlc.TLCError as e:
             if 'timed out' in str(e):
                 return None
@@ -1517,10 +1517,10 @@ def main(tier, seed, replay=None):
         cfgs = ['MC_Lifecycle_quick.cfg', 'MC_Lifecycle_quick_sync.cfg'] if tier == 'quick' else \
                ['MC_Lifecycle_thorough.cfg', 'MC_Lifecycle_thorough_sync.cfg', 'MC_Lifecycle_thorough_long.cfg',
                 'MC_Lifecycle_quick.cfg', 'MC_Lifecycle_quick_sync.cfg']
-        f_checks = [(cfg, big.submit(tlc.check, 'MC_Lifecycle.tla', cfg, timeout=3000, workers=w_big,
+        f_checks = [(cfg, big.submit(tlc.check, 'MC_Lifecycle.tla', cfg, timeout=3000, workers=w_big, heap='6g',
                                      coverage=(cfg == 'MC_Lifecycle_quick.cfg' and tier == 'thorough'))) for cfg in cfgs]
         f_bugs = [(b, small.submit(tlc.expect_violation, 'MC_Lifecycle.tla', 'MC_Lifecycle_bug_%s.cfg' % b, timeout=1200,
-                                   workers=2)) for b in BUG_CFGS]
+                                   workers=2, heap='3g')) for b in BUG_CFGS]
 
         # 2. spec -> code.  (a) shortest counterexamples of the AS-IS spec (switches measured on the tree) with the
         #    constants of the real handshake, per invariant / API flavour / closer, replayed step by step
@@ -1548,7 +1548,7 @@ def main(tier, seed, replay=None):
             f_rev[name] = small.submit(search, 'rev' + name.split(':')[1].split('-')[0], nworkers=3 if '6c1c06c' in name else 1, **o)
         nsim = 60 if tier == 'quick' else 600
         p = _cfg_with('SIM_Lifecycle.cfg', scratch, 'sim.cfg', Defects=_tla_set(defects))
-        f_sim = small.submit(tlc.simulate, 'MC_Lifecycle.tla', p, num=nsim, depth=160, seed=seed % 100000, timeout=1500)
+        f_sim = small.submit(tlc.simulate, 'MC_Lifecycle.tla', p, num=nsim, depth=160, seed=seed % 100000, timeout=1500, heap='2g')
         for cfg, f in f_checks:
             out.add_tlc(cfg, f.result())
         for b, f in f_bugs:
